@@ -345,6 +345,16 @@ func Spawn() int {
 	return c.ID
 }
 
+// SpawnForeign registers a task for a goroutine that the runtime starts on its own (a timer
+// callback): the caller is not a task, the new goroutine calls Start and defers Exit as usual.
+func SpawnForeign(name string, proc int) int {
+	s := cur.Load()
+	if s == nil || s.aborted.Load() {
+		return -1
+	}
+	return s.newTask(name, proc).ID
+}
+
 // Start is the first call of a goroutine started by a rewritten go statement.
 func Start(id int) {
 	if id < 0 {
@@ -434,11 +444,11 @@ func (s *Sim) loop() {
 			}
 		}
 		if len(cands) == 0 {
-			if s.opts.Strict {
-				s.rep.Deadlock = true
-				s.abort("deadlock")
-				s.mu.Unlock()
-				continue
+			// Nothing can run. In strict mode that is a deadlock - unless a timer set by the code under
+			// test is still pending, so even there the fake clock is first allowed to run on for an hour
+			// (it jumps: this costs nothing when no timer exists).
+			if s.opts.Strict && s.opts.IdleCap == 0 {
+				s.opts.IdleCap = time.Hour
 			}
 			if idleSince.IsZero() {
 				idleSince = time.Now()
